@@ -9,6 +9,63 @@ MV = "rosomaxa::termination::min_variation::MinVariation::<C, O, S, K>::"
 TERM = "rosomaxa::termination::Termination"
 
 
+def _v1_loop_form(F, r, ct):
+    """check_threshold written as a loop: evaluate the whole function over objective sequences of length 0, 1 and 2 (Iterator::next modelled as a finite script)"""
+    fn = F.fns[ct]
+    if not any(t["callee"].endswith("Iterator::next") for _, t in mir.calls(fn)):
+        r.fail("check_threshold: fold", "neither a fold nor a loop over the objectives", F.loc(ct))
+        return
+    for length in (0, 1, 2):
+        state = {"i": 0}
+
+        def nxt(i_, a, h, rl, state=state, length=length):
+            state["i"] += 1
+            if state["i"] <= length:
+                return oe.some(("tuple", [oe.sym(f"idx{state['i']}"), oe.sym(f"values{state['i']}")]))
+            return oe.NONE
+        cvn = {"i": 0}
+
+        def cv(i_, a, h, rl, cvn=cvn):
+            cvn["i"] += 1
+            return oe.sym(f"cv{cvn['i']}")
+        it = oe.Interp(F, ct, {1: oe.ref(oe.sym("self")), 2: oe.sym("values")}, fresh=True, heap={("self", "threshold"): oe.sym("threshold")}, max_steps=4000,
+                       call_models={"Iterator::next": nxt, "statistics::get_cv": cv, "statistics::get_cv_safe": cv})
+        orig_run = it._run
+
+        def run(choices, orig_run=orig_run, state=state, cvn=cvn):
+            state["i"] = 0
+            cvn["i"] = 0
+            return orig_run(choices)
+        it._run = run
+        try:
+            paths = it.explore(max_paths=200)
+        except oe.Undecided as e:
+            r.ok("check_threshold: form", f"not decided: the loop form is not evaluable over the finite orderings ({e})")
+            return
+        for p in paths:
+            rel = [a for a in p.assumptions if len(a) == 3 and isinstance(a[2], str) and a[2] in "LEG" and a[0] != "switch"]
+            above = []
+            for a, b, o in rel:
+                if "threshold" in a and "threshold" not in b:
+                    o = oe.rev(o)
+                above.append(o == "G")
+            if length == 0:
+                inst = "check_threshold: initial"
+                if p.ret == ("bool", True):
+                    r.ok(inst, "no objective => fires")
+                else:
+                    r.fail(inst, f"with no objective the criterion answers {p.ret}", F.loc(ct))
+                continue
+            inst = f"check_threshold[{length} objective(s): " + ",".join("cv>t" if x else "cv<=t" for x in above) + "]"
+            want = not any(above) and len(above) == length
+            if any(above):
+                want = False
+            if p.ret == ("bool", want):
+                r.ok(inst, "fires" if want else "blocked by an objective above the threshold")
+            else:
+                r.fail(inst, f"answers {p.ret}: the variation criterion must fire exactly when EVERY objective's coefficient of variation is not above the threshold", F.loc(ct))
+
+
 def v1_threshold_fold(F, r):
     ct = MV + "check_threshold"
     fn = F.fns.get(ct)
@@ -16,7 +73,7 @@ def v1_threshold_fold(F, r):
         raise AnchorError(ct)
     folds = [(bi, t) for bi, t in mir.calls(fn) if t["callee"].split("::")[-1] in ("try_fold", "fold", "all", "any")]
     if not folds:
-        r.fail("check_threshold: fold", "no fold over the objectives", F.loc(ct))
+        _v1_loop_form(F, r, ct)
         return
     bi, t = folds[-1]
     last = t["callee"].split("::")[-1]
